@@ -127,6 +127,7 @@ class C11(Prop):
             if B or spec.get("steer"):
                 out.nontrivial = True
                 out.add("B", "%s:%s" % (spec.get("seed"), [b[0] for b in B]))
+                out.item("B:%s" % [b[:2] for b in B])
             tag = "B=%s steer=%s" % ([(b[0], b[1]) for b in B], spec.get("steer"))
             fa = failure_class(ra)
             if fa:
